@@ -65,6 +65,11 @@ def make_sync_manager(channel, write_only=False, logger=None,
                 # stop() the service thread is ended instead of leaked
                 raise SystemExit
             self.listen_calls += 1
+            if getattr(self, 'fail_first_listens', 0) > 0:
+                # the backend is unreachable when the listener starts: the
+                # iterator fails before it has delivered anything
+                self.fail_first_listens -= 1
+                raise ConnectionError('injected: backend unreachable')
             while True:
                 # coming back here means the message handed out before (if
                 # any) has been processed completely
@@ -159,6 +164,9 @@ def make_async_manager(channel, write_only=False, logger=None,
 
         async def _listen(self):
             self.listen_calls += 1
+            if getattr(self, 'fail_first_listens', 0) > 0:
+                self.fail_first_listens -= 1
+                raise ConnectionError('injected: backend unreachable')
             if self.inbox is None:
                 self.inbox = asyncio.Queue()
             while True:
